@@ -4,7 +4,10 @@ usage: seeds_regress.py [first-check-only]   -> prints one line per (seed, check
 import json, os, subprocess, sys, glob
 lost = []
 only_first = len(sys.argv) > 1
+start = sys.argv[2] if len(sys.argv) > 2 else ''
 for d in sorted(glob.glob('/verif/seeded/*/')):
+    if os.path.basename(d[:-1]) < start:
+        continue
     meta = json.load(open(d + 'meta.json'))
     checks = [c for c in meta['caught_by_quick'] if c.startswith('C') and len(c) == 3]
     if only_first:
@@ -13,7 +16,7 @@ for d in sorted(glob.glob('/verif/seeded/*/')):
         checks = own or checks[:1]
     if not checks:
         continue
-    r = subprocess.run(['/verif/mut_eval.sh', d + 'patch.diff', 'quick'] + checks, capture_output=True, text=True)
+    r = subprocess.run(['/verif/mut_eval.sh', d + 'patch.diff', 'quick'] + checks, capture_output=True, text=True, errors='replace')
     for line in r.stdout.splitlines():
         parts = line.split()
         if len(parts) >= 2 and parts[1].startswith('rc='):
